@@ -43,17 +43,18 @@ type bounds struct {
 	// factory, the full set and the singleton sets
 	fullHistoryUpTo int
 	tailFormNodes   int // bound of the family over the extended tail-call forms
+	callAgainBase   int // base-tree size of the call-again family
 	shapeAllUpTo    int // trees up to this size run every body shape; the next size one shape per tree
 }
 
 func tierBounds(thorough bool) bounds {
-	b := bounds{maxNodes: 4, rotUpTo: 3, histories: []string{"once", "twice", "cache", "reopen", "other", "closedcm", "closedmid", "hostclose", "rtinst"}, fullHistoryUpTo: 3, tailFormNodes: 3, shapeAllUpTo: 2,
+	b := bounds{maxNodes: 4, rotUpTo: 3, histories: []string{"once", "twice", "cache", "reopen", "other", "closedcm", "closedmid", "hostclose", "rtinst"}, fullHistoryUpTo: 3, tailFormNodes: 3, shapeAllUpTo: 2, callAgainBase: 3,
 		chainPattern: []string{"d", "i", "dim", "dhr"}}
 	for d := 1; d <= 40; d++ {
 		b.chainDepths = append(b.chainDepths, d)
 	}
 	if thorough {
-		b.maxNodes, b.rotUpTo, b.fullHistoryUpTo, b.tailFormNodes, b.shapeAllUpTo = 5, 4, 4, 4, 3
+		b.maxNodes, b.rotUpTo, b.fullHistoryUpTo, b.tailFormNodes, b.shapeAllUpTo, b.callAgainBase = 5, 4, 4, 4, 3, 4
 	}
 	return b
 }
@@ -88,6 +89,13 @@ func buildUnits(b bounds) []unit {
 			}
 		}
 	}
+	// a function reached through two call sites (needed to see stale per-function listener state),
+	// run with every factory composition
+	for n := 2; n <= b.callAgainBase; n++ {
+		for _, t := range enumCallAgain(n) {
+			us = append(us, unit{Fam: "tree", Tree: t.String(), Rot: n % 3})
+		}
+	}
 	// body shapes: every (exit form, surplus operands) combination x 4 signature rotations (result
 	// arity 0..3 at every node) on all small trees; one rotating combination per tree on the next size
 	for n := 1; n <= b.shapeAllUpTo; n++ {
@@ -111,6 +119,7 @@ type caseID struct {
 	Tree    string `json:"tree"`
 	Rot     int    `json:"rot"`
 	Shape   int    `json:"shape,omitempty"`
+	Comp    int    `json:"comp,omitempty"` // factory composition (exec.go compose)
 	Start   bool   `json:"start"`
 	Engine  string `json:"engine"`
 	History string `json:"history"`
@@ -146,7 +155,7 @@ type caseVerdict struct {
 
 // evalCase runs one case and judges everything that can be judged from it alone.
 func evalCase(p *program, id caseID, base *outcome) caseVerdict {
-	spec := runSpec{Engine: id.Engine, History: id.History, Listen: id.Listen, Mask: id.Mask, All: id.All}
+	spec := runSpec{Engine: id.Engine, History: id.History, Listen: id.Listen, Mask: id.Mask, All: id.All, Comp: id.Comp}
 	v := caseVerdict{res: runCase(p, spec)}
 	_, mout := runModel(p.tree, p.sigs, func(int) bool { return false }, modelOpts{})
 	if !id.Listen {
@@ -178,8 +187,8 @@ func evalCase(p *program, id caseID, base *outcome) caseVerdict {
 			// compilation of the binary; host functions (compiled once, no binary) stay with the second.
 			guest := func(i int) bool { return set(i) && !p.tree.isHost(i) }
 			host := func(i int) bool { return set(i) && p.tree.isHost(i) }
-			_, va := judgeStream(p, id.Engine, id.History, guest, v.res.EvA)
-			_, vb := judgeStream(p, id.Engine, id.History, host, v.res.Ev)
+			_, va := judgeStream(p, id.Engine, id.History, guest, nil, v.res.EvA)
+			_, vb := judgeStream(p, id.Engine, id.History, host, nil, v.res.Ev)
 			if onlyKnownShape(va) && onlyKnownShape(vb) {
 				v.viols = append(v.viols, viol{"history:" + id.History + ":" + id.Engine + ":second-factory-ignored-first-notified",
 					fmt.Sprintf("the binary was compiled a second time with another listener factory; the instance of the second CompiledModule sent all %d guest-function events to the first factory's listeners and none to the second's", len(v.res.EvA))})
@@ -194,11 +203,82 @@ func evalCase(p *program, id caseID, base *outcome) caseVerdict {
 				fmt.Sprintf("listeners of the earlier compilation received %d events: %s", len(v.res.EvA), clip(streamString(v.res.EvA)))})
 		}
 	}
-	tail, vs := judgeStream(p, id.Engine, id.History, set, ev)
+	var multi func(int) bool
+	if id.Comp > 0 {
+		multi = set // in every composition exactly the functions of the set have two or more listeners
+	}
+	tail, vs := judgeStream(p, id.Engine, id.History, set, multi, ev)
 	v.tail = tail
-	v.viols = append(v.viols, vs...)
 	v.clean = len(vs) == 0
+	// every other component listener of a composed factory: its own stream against the model for
+	// its own set (the adapter component sees before-events only: against its sibling's)
+	if n := len(v.res.Comps); n > 1 {
+		prim := v.res.Comps[n-1]
+		for _, c := range v.res.Comps[:n-1] {
+			if c.BeforeOnly {
+				if !eventsEqual(onlyK(c.rec.ev, 'B'), onlyK(prim.rec.ev, 'B')) {
+					vs = append(vs, viol{"values:" + id.Engine + ":before-events-of-the-FunctionListenerFunc-adapter-differ-from-its-sibling-listener",
+						fmt.Sprintf("adapter %s | sibling %s", clip(streamString(c.rec.ev)), clip(streamString(onlyK(prim.rec.ev, 'B'))))})
+				}
+			} else {
+				_, cv := judgeStream(p, id.Engine, id.History, c.set, multi, c.rec.ev)
+				for _, w := range cv {
+					dup := false
+					for _, x := range vs {
+						dup = dup || x.Sig == w.Sig
+					}
+					if !dup {
+						vs = append(vs, w)
+					}
+				}
+				v.clean = v.clean && len(cv) == 0
+			}
+			// the components were shown the same frames: identical program counters
+			if sameSetName(c.Name) && !samePCs(c.rec.ev, prim.rec.ev) {
+				vs = append(vs, viol{"values:" + id.Engine + ":program-counters-differ-between-component-listeners", fmt.Sprintf("component %s and %s of one MultiFunctionListenerFactory saw different StackIterator.ProgramCounter values for the same before-event", c.Name, prim.Name)})
+			}
+		}
+	}
+	if id.Comp > 0 {
+		// model mismatches under a composed factory are their own class
+		for i := range vs {
+			if genericFamilies[sigFamily(vs[i].Sig)] {
+				vs[i].Sig = fmt.Sprintf("multi-factory(%d):%s", id.Comp, vs[i].Sig)
+			}
+		}
+	}
+	v.viols = append(v.viols, vs...)
 	return v
+}
+
+func onlyK(ev []event, k byte) []event {
+	var o []event
+	for _, e := range ev {
+		if e.K == k {
+			o = append(o, e)
+		}
+	}
+	return o
+}
+
+func sameSetName(n string) bool { return n != "every-function" }
+
+func samePCs(a, b []event) bool {
+	a, b = onlyK(a, 'B'), onlyK(b, 'B')
+	if len(a) != len(b) {
+		return true // stream differences are reported by the stream comparison
+	}
+	for i := range a {
+		if len(a[i].PCs) != len(b[i].PCs) {
+			return false
+		}
+		for k := range a[i].PCs {
+			if a[i].PCs[k] != b[i].PCs[k] {
+				return false
+			}
+		}
+	}
+	return true
 }
 
 // onlyKnownShape: the first factory's stream deviates from the model only by the separately
@@ -223,6 +303,11 @@ func clip(s string) string {
 
 func setsFor(u unit, n int) []caseID {
 	var out []caseID
+	if t, err := ParseTree(u.Tree); err == nil && u.Fam == "tree" && t.isCallAgain(len(t)-1) {
+		// all-functions factory, every function, only the function that is called twice
+		full := uint64(1)<<uint(n-1) - 1
+		return []caseID{{Listen: true, All: true}, {Listen: true, Mask: full}, {Listen: true, Mask: 1 << uint(t.target(len(t)-1))}}
+	}
 	if u.Fam == "tree" {
 		for m := uint64(0); m < 1<<uint(n); m++ {
 			out = append(out, caseID{Listen: true, Mask: m})
@@ -272,6 +357,7 @@ func runUnit(u unit, b bounds) (res unitResult) {
 		starts = []bool{false}
 	}
 	histories := b.histories
+	againTree := u.Fam == "tree" && t.isCallAgain(len(t)-1)
 	hasHost, hasExit := false, false
 	for i := range t {
 		hasHost = hasHost || t.isHost(i)
@@ -329,6 +415,19 @@ func runUnit(u unit, b bounds) (res unitResult) {
 					res.Evals++
 					for _, w := range v.viols {
 						addViol(id, p, w)
+					}
+					// factory compositions: call-again trees (every set) and chains (all-functions factory)
+					if h == "once" && (againTree || (u.Fam == "chain" && s.All && len(t)%4 == 0)) {
+						for comp := 1; comp <= 4; comp++ {
+							cid := id
+							cid.Comp = comp
+							cv := evalCase(p, cid, &base)
+							res.Evals++
+							res.Outcomes["composed-factory-runs"]++
+							for _, w := range cv.viols {
+								addViol(cid, p, w)
+							}
+						}
 					}
 					if h == "once" {
 						streams[eng][key{s.Mask, s.All}] = v
@@ -522,7 +621,7 @@ func main() {
 		Evaluations: evals, DistinctNontriv: distinct,
 		Rule:    "evaluation = one execution of a generated program on one engine under one compilation history with one listener set (or none); distinct non-trivial = distinct (tree, signature rotation, start-variant, listener set) whose reference event stream is non-empty, counted once across engines and histories",
 		Samples: samples.List(), Exhaustive: true, Outcomes: outcomes.Map(),
-		Bounds: map[string]any{"max_nodes": b.maxNodes, "edge_kinds": "d,i,m,h,t,r", "body_shapes": fmt.Sprintf("%d (exit form x surplus operands) combinations x 4 signature rotations on every tree with <= %d nodes, one combination per tree with %d nodes; history once", numShapeCombos, b.shapeAllUpTo, b.shapeAllUpTo+1), "tail_form_family": fmt.Sprintf("edge kinds d,i,m,h,t,u,v,w,r; trees with <= %d nodes using u, v or w", b.tailFormNodes), "outcomes": "R,T,P,E,S", "signature_rotations_up_to_nodes": b.rotUpTo,
+		Bounds: map[string]any{"max_nodes": b.maxNodes, "edge_kinds": "d,i,m,h,t,r", "factory_compositions": fmt.Sprintf("single; Multi(set,set); Multi(every function,set); Multi(set,nil,set); Multi(FunctionListenerFunc adapter,set) - on the call-again family (base trees with <= %d nodes + a second call site of an earlier function; sets: all-functions, full, the twice-called function) and on the chains whose length is a multiple of 4 (all-functions factory); history once", b.callAgainBase), "body_shapes": fmt.Sprintf("%d (exit form x surplus operands) combinations x 4 signature rotations on every tree with <= %d nodes, one combination per tree with %d nodes; history once", numShapeCombos, b.shapeAllUpTo, b.shapeAllUpTo+1), "tail_form_family": fmt.Sprintf("edge kinds d,i,m,h,t,u,v,w,r; trees with <= %d nodes using u, v or w", b.tailFormNodes), "outcomes": "R,T,P,E,S", "signature_rotations_up_to_nodes": b.rotUpTo,
 			"chain_depths": "1..40", "chain_patterns": b.chainPattern, "chain_leaves": "R,T,P,E", "histories": b.histories, "all_listener_sets_under_every_history_up_to_nodes": b.fullHistoryUpTo, "engines": []string{"interpreter", "compiler"},
 			"listener_sets": "every subset of the nodes + all-functions factory (trees); full/even/odd/root/leaf/all-functions (chains)"},
 		Extra: map[string]any{"units": len(units), "units_done": int64(done) - skipped, "tree_units": nTree, "chain_units": nChain, "units_by_size": byN, "explore_wall_s": time.Since(t0).Seconds(), "unrepeatable_mismatches": unrepeatable},
@@ -553,7 +652,7 @@ func sigFamily(sig string) string {
 // engine comparisons: their remaining segments depend on which event happened to differ, so an
 // address- or timing-dependent defect may show under another signature of the same family.
 var genericFamilies = map[string]bool{"stack": true, "values": true, "sequence": true, "slice-length": true,
-	"listener-fault": true, "results": true, "engines-differ": true}
+	"listener-fault": true, "results": true, "engines-differ": true, "multi-factory(1)": true, "multi-factory(2)": true, "multi-factory(3)": true, "multi-factory(4)": true}
 
 // confirmIntermittent decides about verdicts that showed once in a child and did not repeat when
 // the case was evaluated again in the same process (runs 1 and 2). The unit is run 4 more times,
@@ -700,6 +799,8 @@ func show(args []string) {
 		switch {
 		case a == "start":
 			id.Start = true
+		case strings.HasPrefix(a, "comp="):
+			fmt.Sscan(a[5:], &id.Comp)
 		case strings.HasPrefix(a, "shape="):
 			fmt.Sscan(a[6:], &id.Shape)
 		case strings.HasPrefix(a, "rot="):
